@@ -237,6 +237,23 @@ for _pid, (_t, _x) in ROUND4.items():
         _tech, _text, _ref = CLAIMS[_pid]
         CLAIMS[_pid] = (_tech + _t, _text + " " + _x, _ref)
 
+ROUND5 = {
+ "C01": ("", "Round 5: path arguments expanded in other threads and collected over a channel are reported (R1.4 clause)."),
+ "C02": ("; regular-language minimum match length of the pattern table", "Round 5: the is-last flag comes from one predicate at every send (R2.13); the too-small threshold is below the shortest possible message (R2.14)."),
+ "C03": ("", "Round 5: an empty selection is not an error in any worker (R3.11); R3.9 covers every worker and reader."),
+ "C04": ("", "Round 5: numeric-zone sibling rows agree on the separator before the zone (R4.12); pattern ties are decided towards the front of the table (R4.13)."),
+ "C05": ("", "Round 5: the tar member position is counted over the same iterator where stored and where used (R5.13); the gzip size limit applies to the on-disk length (R5.14)."),
+ "C06": ("", "Round 5: no directory walk is started from a closure handed to the walker's own thread pool (R6.11)."),
+ "C07": ("", "Round 5: constant slice bounds on journal payloads are dominated by a length test (R7.13); the stage-1 threshold tables tile 0..max (R7.14)."),
+ "C08": ("", "Round 5: only null entries are dismissed by the time scan (R8.14); an undecodable entry does not end the file (R8.15); the layout candidates are returned only after every by-size test (R8.16)."),
+ "C10": ("", "Round 5: no shortcut from the file's modification time (R10.9 lift of C03 R3.9)."),
+ "C12": ("", "Round 5: the datetime search sees both pieces of a range that spans two blocks (R12.8); the stored-line shortcut of find_line is not weakened (R12.9)."),
+}
+for _pid, (_t, _x) in ROUND5.items():
+    if _pid in CLAIMS:
+        _tech, _text, _ref = CLAIMS[_pid]
+        CLAIMS[_pid] = (_tech + _t, _text + " " + _x, _ref)
+
 NA_REASON = {}
 
 checks = []
